@@ -205,3 +205,6 @@ def run(ctx):
     # ---- D1 (continued): what the dispatched setters/pushers do, and what the getters the caller observes return (shared with C07)
     accessors(ctx, V, "D1-ACCESSOR", "D1-PAYLOAD")
     primitives(ctx, "D1-PRIMITIVE")
+    who_writes(ctx, "D1-WHO-WRITES")
+    # ---- D3 (continued): which keys are variables at all: exactly the 23 names, anything else is ParseVariable (shared with C07)
+    parse_rules(ctx, V, "D3-VARNAMES")
